@@ -9,6 +9,7 @@ package engines
 import (
 	"context"
 	"encoding/json"
+	"errors"
 	"flag"
 	"fmt"
 	"reflect"
@@ -31,7 +32,12 @@ type spySession struct {
 	p9p.Session
 	mu  sync.Mutex
 	log []spyCall
+	// lose, when set, is asked for every clunk / remove: true means the call never reaches the server
+	// (the connection failed under it) and an error that is not a 9p error reply is returned
+	lose func() bool
 }
+
+var errLost = errors.New("connection lost before the request was delivered")
 
 func fidInt(f p9p.Fid) int {
 	if f == p9p.NOFID {
@@ -75,10 +81,16 @@ func (s *spySession) WStat(ctx context.Context, fid p9p.Fid, d p9p.Dir) error {
 }
 func (s *spySession) Clunk(ctx context.Context, fid p9p.Fid) error {
 	s.rec(spyCall{M: "clunk", Fid: fidInt(fid), NF: 99})
+	if s.lose != nil && s.lose() {
+		return errLost
+	}
 	return s.Session.Clunk(ctx, fid)
 }
 func (s *spySession) Remove(ctx context.Context, fid p9p.Fid) error {
 	s.rec(spyCall{M: "remove", Fid: fidInt(fid), NF: 99})
+	if s.lose != nil && s.lose() {
+		return errLost
+	}
 	return s.Session.Remove(ctx, fid)
 }
 func (s *spySession) Read(ctx context.Context, fid p9p.Fid, p []byte, off int64) (int, error) {
@@ -112,10 +124,20 @@ type cfsExec struct {
 	hist   []cfsLabel
 	cur    cfsLabel
 	maxFid int
+	// m2r: the fid the client layer really chose for each fid of the model (fid numbers are the layer's own
+	// business: it may recycle them; what counts is that live entries have pairwise distinct fids)
+	m2r map[int]int
+}
+
+func (x *cfsExec) real(mf int) int {
+	if r, ok := x.m2r[mf]; ok {
+		return r
+	}
+	return mf
 }
 
 func newCfsExec(res *hx.Result, maxFid int) *cfsExec {
-	x := &cfsExec{res: res, fs: sfs.New(), ents: map[int]p9p.Dirent{}, maxFid: maxFid}
+	x := &cfsExec{res: res, fs: sfs.New(), ents: map[int]p9p.Dirent{}, maxFid: maxFid, m2r: map[int]int{}}
 	x.fs.Decide = func(call string, h *sfs.Handle) sfs.Expect {
 		l := x.cur
 		e := sfs.Expect{Call: call, Out: "ok", Dir: true}
@@ -147,6 +169,7 @@ func newCfsExec(res *hx.Result, maxFid int) *cfsExec {
 	}
 	x.server = p9p.SFileSys(x.fs)
 	x.spy = &spySession{Session: x.server}
+	x.spy.lose = func() bool { return x.cur.Out == "lost" }
 	x.client = p9p.CFileSys(x.spy)
 	return x
 }
@@ -227,8 +250,8 @@ func (x *cfsExec) Step(label, from, to json.RawMessage) bool {
 	if got == nil {
 		got = []spyCall{}
 	}
-	if !reflect.DeepEqual(got, want) {
-		x.viol("session-call:"+l.Op, fmt.Sprintf("client layer issued %s, the model expects %s", hx.JS(got), hx.JS(want)))
+	if !x.sameCalls(got, want) {
+		x.viol("session-call:"+l.Op, fmt.Sprintf("client layer issued %s, the model expects %s (fid numbers up to renaming: model->real %v)", hx.JS(got), hx.JS(want), x.m2r))
 		good = false
 	}
 	// 2. reported outcome
@@ -255,12 +278,57 @@ func (x *cfsExec) Step(label, from, to json.RawMessage) bool {
 			x.ents[l.E] = newEnt
 		}
 	case "clunk", "remove":
-		delete(x.ents, l.E)
+		if l.Out != "lost" {
+			delete(x.ents, l.E)
+		}
 	}
 	if !good {
 		return false
 	}
 	return x.checkServer(to, l, newEnt, err)
+}
+
+// sameCalls compares the session calls issued with the expected ones up to the choice of new fid numbers: a fid
+// the model allocates in this step may be any number that no live entry uses (and not NOFID).
+func (x *cfsExec) sameCalls(got, want []spyCall) bool {
+	if len(got) != len(want) {
+		return false
+	}
+	for i := range got {
+		g, w := got[i], want[i]
+		if g.M != w.M || g.Name != w.Name || !reflect.DeepEqual(g.Names, w.Names) {
+			return false
+		}
+		newModel, newReal := -1, -1
+		switch w.M {
+		case "attach":
+			newModel, newReal = w.Fid, g.Fid
+			if g.NF != w.NF {
+				return false
+			}
+		case "walk":
+			newModel, newReal = w.NF, g.NF
+			if g.Fid != x.real(w.Fid) {
+				return false
+			}
+		default:
+			if g.Fid != x.real(w.Fid) || g.NF != w.NF {
+				return false
+			}
+		}
+		if newModel >= 0 {
+			if newReal == 99 {
+				return false
+			}
+			for mf := range x.ents { // live entries
+				if x.real(mf) == newReal && mf != newModel {
+					return false
+				}
+			}
+			x.m2r[newModel] = newReal
+		}
+	}
+	return true
 }
 
 // checkServer probes the real server session directly and compares with the model's bound set.
@@ -279,7 +347,19 @@ func (x *cfsExec) checkServer(to json.RawMessage, l cfsLabel, newEnt p9p.Dirent,
 	good := true
 	for f := 1; f <= x.maxFid; f++ {
 		x.cur = cfsLabel{Out: "ok"}
-		d, err := x.server.Stat(ctx, p9p.Fid(f))
+		if !bound[f] {
+			// nothing may be bound under a number that no bound model fid maps to
+			taken := false
+			for g := range bound {
+				if bound[g] && x.real(g) == x.real(f) {
+					taken = true
+				}
+			}
+			if taken {
+				continue
+			}
+		}
+		d, err := x.server.Stat(ctx, p9p.Fid(x.real(f)))
 		if (err == nil) != bound[f] {
 			if err == nil {
 				x.viol("fid-leaked", fmt.Sprintf("fid %d is bound on the server but the model has it unbound (no live entry owns it)", f))
@@ -309,7 +389,7 @@ func (x *cfsExec) Finish(state json.RawMessage) {
 		e.Clunk(ctx)
 		delete(x.ents, f)
 	}
-	for f := 1; f <= x.maxFid+1; f++ {
+	for f := 0; f <= x.maxFid+3; f++ {
 		x.cur = cfsLabel{Out: "ok"}
 		if _, err := x.server.Stat(ctx, p9p.Fid(f)); err == nil {
 			x.hist = append(x.hist, cfsLabel{Op: "clunk-all"})
